@@ -147,7 +147,7 @@ def source_hash(fn):
 class Trace:
     def __init__(self, id, inputs, build, obligations, functions=(), decide=None, lemmas=(), max_paths=64,
                  budget_s=120, post_bind=None, note="", sample_filter=None, expect_paths=None, requires_nonzero=None,
-                 requires_smt=None, definedness=True, smt_timeout=10, numeric=None, witness_candidates=None, smt_lemmas=None):
+                 requires_smt=None, definedness=True, smt_timeout=10, numeric=None, witness_candidates=None, smt_lemmas=None, cut=None):
         self.id = id
         self.inputs = inputs
         self.build = build
@@ -161,6 +161,7 @@ class Trace:
         self.note = note
         self.sample_filter = sample_filter
         self.requires_nonzero = requires_nonzero  # callable(low, sorts) -> list of Frac/Poly declared nonzero by `requires`
+        self.cut = cut  # callable(g, onodes) -> {node: name}: intermediate nodes lowered as FREE variables (the obligations are then proved for arbitrary values of those intermediates: a stronger statement; used when the outputs depend on the inputs only through them)
         self.smt_lemmas = smt_lemmas  # callable(rs, sorts, low) -> [(name, z3 formula)]: cut formulas, each PROVED by the solver before it is used
         self.requires_smt = requires_smt  # callable(rs: RingSMT, sorts) -> list of z3 constraints (extra requires for SMT queries)
         self.definedness = definedness
@@ -248,6 +249,9 @@ class Trace:
                 low.env.update(s.bind(low))
             if self.post_bind:
                 self.post_bind(low, {s.name: s for s in self.inputs})
+            if self.cut:
+                for node, nm_ in self.cut(g, onodes).items():
+                    low.memo[node] = Frac.of(R, R.gen(nm_))
             out = {}
             for ob in pending:
                 t1 = time.time()
